@@ -336,6 +336,12 @@ def finish(pid, tier, seed, merged, spec, wall_s, inconclusive_reasons):
         got = merged["monitors"].get(mon, {}).get("comparisons", 0)
         if got < f:
             reasons.append(f"monitor '{mon}' made {got} comparisons (< floor {f})")
+    if tier != "quick":
+        for mon, f in spec.get("floors_thorough", {}).items():
+            if mon not in floors:
+                got = merged["monitors"].get(mon, {}).get("comparisons", 0)
+                if got < f:
+                    reasons.append(f"monitor '{mon}' made {got} comparisons (< floor {f})")
     for fn, hit in (merged["extra"].get("reach_functions") or {}).items():
         if not hit and fn in spec.get("must_reach", []):
             reasons.append(f"anchored function {fn} never executed")
